@@ -17,24 +17,44 @@ import (
 
 const blkScenario = "blocking-modes/real-sockets/history-enumeration"
 
-var c10Alphabet = []string{"ka", "v10", "cl", "big", "bigcl", "post", "pipe", "pipecl", "partial", "finish", "pclose"}
+var c10Alphabet = []string{"ka", "v10", "cl", "big", "bigcl", "post", "pipe", "pipecl", "partial", "finish", "ws", "pclose"}
 
-func c10Cases(tier string, visit func(blkkit.Case)) {
-	depth := 4
-	if tier == "thorough" {
-		depth = 5
+func conns(h []blkkit.Ev) int {
+	n := 0
+	for _, e := range h {
+		if e.C+1 > n {
+			n = e.C + 1
+		}
 	}
-	for _, h := range blkkit.Histories(depth, 2, c10Alphabet) {
-		if len(h) == 0 {
+	return n
+}
+
+// c10Cases lists the cases of a tier in a fixed order. quick: up to 4 events on one connection,
+// up to 3 events spread over two; thorough: 5 and 4.
+func c10Cases(tier string, visit func(blkkit.Case)) {
+	d1, d2 := 4, 3
+	if tier == "thorough" {
+		d1, d2 = 5, 4
+	}
+	for _, h := range blkkit.Histories(d1, 2, c10Alphabet) {
+		if len(h) == 0 || (conns(h) > 1 && len(h) > d2) {
 			continue
 		}
 		for _, mode := range []string{"blocking", "mixed", "mixed-nb", "nonblocking"} {
 			cfgs := []blkkit.Cfg{{Mode: mode}}
+			inA := mode == "blocking" || mode == "mixed"
 			if blkkit.Has(h, "big", "bigcl") {
 				// a response that does not fit the socket buffer
 				cfgs = append(cfgs, blkkit.Cfg{Mode: mode, SndBuf: 4096})
 			}
-			if tier == "thorough" && (mode == "blocking" || mode == "mixed") {
+			if blkkit.Has(h, "ws") && inA {
+				// the upgrade request is a request: it gets its 101 whether or not the connection is
+				// transferred to the poller (only a *net.TCPConn is; see verif/blkkit)
+				cfgs = append(cfgs, blkkit.Cfg{Mode: mode, TCP: true, Transfer: true})
+				if tier == "thorough" {
+					cfgs = append(cfgs, blkkit.Cfg{Mode: mode, Async: true}, blkkit.Cfg{Mode: mode, TCP: true})
+				}
+			} else if tier == "thorough" && inA {
 				cfgs = append(cfgs, blkkit.Cfg{Mode: mode, TCP: true})
 			}
 			for _, cfg := range cfgs {
@@ -47,6 +67,7 @@ func c10Cases(tier string, visit func(blkkit.Case)) {
 func c10Caps() blkkit.Caps {
 	c := blkkit.DefaultCaps
 	c.NoReclaim = true
+	c.Own = "c10"
 	return c
 }
 
